@@ -29,6 +29,7 @@ const (
 	kForeach
 	kSub
 	kSwitch
+	kVRead // read through the value getter: the variable used as an operand of an expression
 )
 
 type leaf struct {
@@ -49,6 +50,7 @@ var leaves = []leaf{
 	{kGRead, "x", 0, "grx"},
 	{kSet, "x", 2, "x=2"},
 	{kGSet, "x", 4, "gx=4"},
+	{kVRead, "x", 0, "rvx"},
 	{kRead, "y", 0, "ry"},
 	{kSet, "y", 1, "y=1"},
 	{kGSet, "y", 3, "gy=3"},
@@ -183,6 +185,10 @@ func (r *render) block(f []*node, b *strings.Builder, indent string) {
 		case kRead:
 			r.nread++
 			fmt.Fprintf(b, "out \"r%d=$%s\"\n", r.nread, n.name)
+		case kVRead:
+			// the assignment fails (and && skips the out) when the variable is undefined
+			r.nread++
+			fmt.Fprintf(b, "vscope_t = $%s + 0 && out \"r%d=$vscope_t\"\n", n.name, r.nread)
 		case kGSet:
 			fmt.Fprintf(b, "$GLOBAL.%s = %d\n", n.name, n.val)
 		case kGRead:
@@ -282,7 +288,7 @@ func (m *model) run(f []*node, inContainer bool) string {
 			m.global[n.name] = n.val
 		case kGUnset:
 			delete(m.global, n.name)
-		case kRead:
+		case kRead, kVRead:
 			m.nread++
 			if v, ok := m.top()[n.name]; ok {
 				if _, g := m.global[n.name]; g {
@@ -445,7 +451,7 @@ func replay(c *vlib.Ctx, w string) {
 func init() {
 	vlib.Register(&vlib.Check{
 		ID: "C11", Engine: "E3",
-		Rule:   "every op tree (program) with at most N nodes and nesting depth <= 2 over leaves {x=1, x=2, y=1 (local assignment), !set x|y, read $x|$y, $GLOBAL.x=3|4, $GLOBAL.y=3, read $GLOBAL.x, !global x} and containers {call of a function defined for that site, if{true}then{..}, %[1]->foreach{..}, out ${..}, switch{case{true}then{..}}} (quick N<=4; thorough N<=4, plus N=5 over the eight x-only leaves and N=6 over the four simplest leaves rx, x=1, gx=3, ux) is rendered as a murex program with strict-vars on, run in a fresh function scope with the global table reset, followed by top-level reads of x, y, GLOBAL.x, GLOBAL.y; every tagged read line on stdout (absent = undefined-variable failure) is compared with a scope-stack model: a call pushes an empty frame, blocks and sub-shells share the frame, one global table, lookup local then global, unset removes only the current frame's binding; non-trivial = the program has a container with a write (set/unset/global set/global unset) inside it",
+		Rule:   "every op tree (program) with at most N nodes and nesting depth <= 2 over leaves {x=1, x=2, y=1 (local assignment), !set x|y, read $x|$y, $x used as an expression operand, $GLOBAL.x=3|4, $GLOBAL.y=3, read $GLOBAL.x, !global x} and containers {call of a function defined for that site, if{true}then{..}, %[1]->foreach{..}, out ${..}, switch{case{true}then{..}}} (quick N<=4; thorough N<=4, plus N=5 over the eight x-only leaves and N=6 over the four simplest leaves rx, x=1, gx=3, ux) is rendered as a murex program with strict-vars on, run in a fresh function scope with the global table reset, followed by top-level reads of x, y, GLOBAL.x, GLOBAL.y; every tagged read line on stdout (absent = undefined-variable failure) is compared with a scope-stack model: a call pushes an empty frame, blocks and sub-shells share the frame, one global table, lookup local then global, unset removes only the current frame's binding; non-trivial = the program has a container with a write (set/unset/global set/global unset) inside it",
 		Run:    run,
 		Replay: replay,
 		Assumptions: []string{
